@@ -3,7 +3,7 @@ REG_DRAFT = dict(
     engine='E1-enum',
     technique='exhaustive enumeration of divergence mechanism x program position x sandbox mode, each run as a real CLI process under an address-space limit and a wall-clock cap',
     text="A finite family per way of not finishing: 13 never-terminating loop/recursion forms (while, for, self/mutual/closure/method/callback recursion, endless printing, read_line on an open stdin), 9 value-growth forms whose size doubles or nests per iteration (string, list, Option, tuple, dict; by loop and by recursion), every public prelude function and method called on large arguments (256 KiB string, 65k-element list, i64 extremes; does one interpreter step stay bounded?), recursion to every depth 985..1015 around the 1 000-frame limit (plus 10, 100, 2 000) and a ladder of values nested 10..1 000 (quick) / 10..100 000 (thorough) deep that are then dropped, printed, compared or shown. Each is placed at top level, in a function, closure, method and test body and run with `playground-run` and `sandboxed-test` (growth forms: reduced cross in quick). Oracle: the process exits by itself with status 0 and a JSON result (value, error, tick- or stack-limit error): no signal, no panic (101), no allocation failure under RLIMIT_AS, not the wall cap (60 s; a timed-out case is re-run alone with 3x the cap before it counts).",
-    note='Limits are the fixed sandbox limits (100 000 ticks, 1 000 frames). The address-space limit is 1 GiB in quick and 4 GiB in thorough; an allocation failure of a bounded program under 1 GiB is re-run under 4 GiB before it counts. Only the listed mechanisms are covered, not their compositions.',
+    note='Limits are the fixed sandbox limits (100 000 ticks, 1 000 frames). Address space is limited to 1 GiB; for programs that are unbounded by construction (the growth family) any limit is fair, an allocation failure of a bounded program is re-run under 4 GiB before it counts. Re-runs go two at a time rather than strictly alone. Only the listed mechanisms are covered, not their compositions.',
     design_ref='DESIGN.md §6 C25',
 )
 LEVEL = "model_checking"
@@ -77,13 +77,10 @@ def growth():
         ("growth: string doubling in a loop", "", 'let s = "ab"\nwhile True { s = s ^ s }'),
         ("growth: string doubling by recursion", "fun grow_s(s: String) { grow_s(s ^ s) }\n", 'grow_s("ab")'),
         ("growth: list doubling with concat", "", "let l = [1, 2]\nwhile True { l = l.concat(l) }"),
-        ("growth: list nesting in a loop", "", "let l = []\nwhile True { l = [l] }"),
         ("growth: list nesting by recursion", "fun grow_l(l) { grow_l([l]) }\n", "grow_l([])"),
-        ("growth: Option nesting in a loop", "", "let o = None\nwhile True { o = Some(o) }"),
         ("growth: tuple doubling in a loop", "", "let t = (1, 1)\nwhile True { t = (t, t) }"),
         ("growth: list of two shared halves in a loop", "", "let t = [1]\nwhile True { t = [t, t] }"),
-        ("growth: dict nesting in a loop", "", 'let d = Dict[]\nwhile True { d = Dict["k" => d] }'),
-    ]
+    ] + [(f"growth: {nname} nesting in a loop", "", f"let v = {init}\nwhile True {{ v = {step} }}") for nname, init, step in NESTERS]
 
 
 def big_arg(hint, which):
@@ -168,8 +165,8 @@ FINALS = [("dropped", "1"), ("shown with string_repr", "string_repr(v).len()"), 
 
 
 def run(ctx):
-    as_kib = (1 if ctx.quick else 4) * GIB
-    ctx.bound("address_space_limit_GiB", as_kib // GIB)
+    as_kib = 1 * GIB          # screening limit; an allocation failure of a *bounded* program is confirmed under 4 GiB before it counts
+    ctx.bound("address_space_limit_GiB", {"screening": 1, "confirmation of bounded programs": 4})
     ctx.bound("wall_cap_s", WALL)
     ctx.bound("sandbox_limits", {"ticks": 100000, "stack_frames": 1000})
     root = os.path.join(ctx.scratch, "c25")
@@ -199,6 +196,8 @@ def run(ctx):
                 if ctx.quick and not ((pos, mode) in (("top", "playground-run"), ("test", "sandboxed-test"))):
                     continue
                 add(name, defs, body, pos, mode, heavy=True, unbounded=True, group="growth")
+                if cases and cases[-1]["mech"] == name and name.endswith(" nesting in a loop"):
+                    cases[-1]["nester"] = name[len("growth: "):-len(" nesting in a loop")]
     for name, defs, body in builtin_calls(ctx):
         for pos, mode in (("top", "playground-run"), ("test", "sandboxed-test")) if ctx.quick else [(p, m) for p in POSITIONS for m in MODES]:
             add(name, defs, body, pos, mode, group="large-arguments")
@@ -210,7 +209,8 @@ def run(ctx):
                 add(f"{name} to depth {d}", defs, body, pos, mode, group="deep-recursion")
     depths = [10, 100, 1000] if ctx.quick else [10, 100, 1000, 10000, 100000]
     ctx.bound("nesting_depths", depths)
-    ctx.bound("nesting_depths_above_1000", "top/playground-run and test/sandboxed-test only; a depth is skipped once the same nester+operation failed at a smaller depth")
+    ctx.bound("nesting_depths_above_1000", "top/playground-run and test/sandboxed-test only; skipped once the never-ending nesting loop of the same constructor failed, once building the value "
+              "alone ('dropped') failed at that depth, or once the same constructor+operation failed or ran out of ticks at a smaller depth")
     two = (("top", "playground-run"), ("test", "sandboxed-test"))
     later = {}      # depth -> [case], run in stages so that a failure at a smaller depth prunes the deeper ones
     for nname, init, step in NESTERS:
@@ -255,7 +255,6 @@ def run(ctx):
                 return execute(i, c, WALL, as_kib)
         return execute(i, c, WALL, as_kib)
 
-    res = clijobs.pmap(do_case, list(enumerate(cases)))
     def verdict(c, r):
         """(failure kind | None, outcome class)"""
         k = clijobs.failure_kind(r)
@@ -284,48 +283,63 @@ def run(ctx):
             cls = "value"
         return None, cls
 
-    # re-runs, alone: a timeout gets 3x the cap; an allocation failure of a bounded program under the quick limit gets the 4 GiB limit
     fails = {}
-    stop = set()      # ladder keys that failed or ran out of ticks at some depth: deeper values cannot be built
+    stop = set()          # ladder keys (constructor, operation, position, mode) that failed or ran out of ticks at some depth
+    stop_build = set()    # (constructor, position, mode): the value cannot even be built at this depth / the never-ending loop fails
+    all_cases, all_res = [], []
 
-    def judge(i, c, r):
-        kind, cls = verdict(c, r)
-        if kind == "timeout" or (kind == "oom" and not c["unbounded"] and as_kib < 4 * GIB):
-            r2 = execute(i, c, 3 * WALL, 4 * GIB if kind == "oom" else as_kib)
-            kind2, cls2 = verdict(c, r2)
-            ctx.outcome(f"rerun after {kind}: {kind2 or cls2}")
-            kind, cls, r = kind2, cls2, r2
-        ctx.outcome(f"{c['group']}: {cls}")
-        if kind:
-            fails.setdefault((c["mech"], kind), {})[(c["pos"], c["mode"])] = {"program": c["src"], "args": r["args"], "stdout_tail": r["out"][-300:], "stderr_head": r["err"][:400],
-                                                                           "wall_s_rounded": round(r["wall"])}
-        if c.get("ladder") and (kind or cls in ("limit", "test-failed")):
-            stop.add(c["ladder"])
-
-    for i, (c, r) in enumerate(zip(cases, res)):
-        judge(i, c, r)
-    for d in sorted(later):
-        stage = [c for c in later[d] if c["ladder"] not in stop]
-        ctx.outcome(f"nesting depth {d}: skipped, a smaller depth already failed or used up the ticks", len(later[d]) - len(stage))
-        base = len(cases)
+    def run_stage(stage):
+        """Run cases, re-run the doubtful ones (timeout: 3x the cap; allocation failure of a bounded program: 4 GiB) two at a time, record verdicts."""
+        base = len(all_cases)
         sres = clijobs.pmap(do_case, [(base + j, c) for j, c in enumerate(stage)])
+        doubtful = []
         for j, (c, r) in enumerate(zip(stage, sres)):
-            judge(base + j, c, r)
-        cases += stage
-        res += sres
+            kind, cls = verdict(c, r)
+            if kind == "timeout" or (kind == "oom" and not c["unbounded"]):
+                doubtful.append((j, kind))
+        redo = clijobs.pmap(lambda jk: execute(base + jk[0], stage[jk[0]], 3 * WALL, 4 * GIB if jk[1] == "oom" else as_kib), doubtful, threads=2)
+        for (j, kind), r2 in zip(doubtful, redo):
+            ctx.outcome(f"rerun after {kind}: {verdict(stage[j], r2)[1]}")
+            sres[j] = r2
+        for c, r in zip(stage, sres):
+            kind, cls = verdict(c, r)
+            ctx.outcome(f"{c['group']}: {cls}")
+            if kind:
+                fails.setdefault((c["mech"], kind), {})[(c["pos"], c["mode"])] = {"program": c["src"], "args": r["args"], "stdout_tail": r["out"][-300:], "stderr_head": r["err"][:400]}
+            bad = bool(kind) or cls in ("limit", "test-failed")
+            if c.get("ladder") and bad:
+                stop.add(c["ladder"])
+                if c["ladder"][1] == "dropped":
+                    stop_build.add((c["ladder"][0], c["ladder"][2], c["ladder"][3]))
+            if c.get("nester") and kind:
+                for pm in two:
+                    stop_build.add((c["nester"],) + pm)
+        all_cases.extend(stage)
+        all_res.extend(sres)
+
+    run_stage(cases)
+    for d in sorted(later):
+        for gate in (True, False):      # first build-and-drop, then the other operations on what could be built
+            stage = [c for c in later[d] if (c["ladder"][1] == "dropped") == gate and c["ladder"] not in stop
+                     and (c["ladder"][0], c["ladder"][2], c["ladder"][3]) not in stop_build]
+            skipped = sum(1 for c in later[d] if (c["ladder"][1] == "dropped") == gate) - len(stage)
+            if skipped:
+                ctx.outcome(f"nesting depth {d}: skipped (cannot be built, or a smaller depth already failed or used up the ticks)", skipped)
+            run_stage(stage)
+    cases, res = all_cases, all_res
     universe = {}
     for c in cases:
         universe.setdefault(c["mech"], set()).add((c["pos"], c["mode"]))
     for (mech, kind), combos in sorted(fails.items()):
         ex = combos[sorted(combos)[0]]
-        detail = {k: v for k, v in ex.items() if k != "wall_s_rounded"}
+        detail = dict(ex)
         cmd = f"(ulimit -v {as_kib}; garden {' '.join(ex['args'])})"
         if set(combos) >= universe[mech] and len(combos) > 1:
             ctx.violation(f"{mech} @ every position, both modes: {kind}", dict(detail, positions=sorted(f"{p} / {m}" for p, m in combos)), cli_cmd=cmd)
         else:
             for (pos, mode) in sorted(combos):
                 ex = combos[(pos, mode)]
-                ctx.violation(f"{mech} @ {pos} in {mode}: {kind}", {k: v for k, v in ex.items() if k != "wall_s_rounded"}, cli_cmd=cmd)
+                ctx.violation(f"{mech} @ {pos} in {mode}: {kind}", ex, cli_cmd=cmd)
 
     oc = ctx.cov["outcomes"]
     if not only:
